@@ -891,6 +891,7 @@ def check(rep):
                 'interleavings, reply fragmentation and sleep overshoot; plus direct _send_tune_ok on offers beyond the wire types '
                 '(channel_max > 65535, frame_max > 2^32) and direct _send_start_ok / str.split() on random texts. '
                 'distinct = (kind, offer, tune values, refusal, config); non-trivial = a non-zero limit, a refusal or a multi-token offer')
+    rep.rule += '; plus: re-open of a connection the broker dropped (failure recorded, reader ended, state not yet polled), optionally after a partial frame, against accepting and refusing brokers under the virtual runtime'
     rep.assumptions = [
         'username, password and virtual_host are str and heartbeat is an int in 0..65535 (other values are rejected by pamqp when the reply is marshalled)',
         'offered mechanisms = the whitespace-separated tokens of the Start.mechanisms text (AMQP: space-separated); an undecodable or empty offer contains none',
